@@ -355,3 +355,98 @@ func init() {
 		return nil
 	}
 }
+
+// protoMerge implements proto.Merge(dst, src) on the engine's message values:
+// set scalar fields of src overwrite dst's, set sub-messages merge
+// recursively, repeated fields append, extensions are copied over.
+func (e *Exec) protoMerge(dp, sp Ptr, t types.Type, depth int) {
+	if depth > 8 {
+		e.unsupported("proto.Merge nesting")
+	}
+	st, ok := t.Underlying().(*types.Struct)
+	if !ok {
+		e.unsupported("proto.Merge of a non-struct message")
+	}
+	for i := 0; i < st.NumFields(); i++ {
+		tag := st.Tag(i)
+		fdp := Ptr{Obj: dp.Obj, Path: appendPath(dp.Path, i)}
+		fsp := Ptr{Obj: sp.Obj, Path: appendPath(sp.Path, i)}
+		if st.Field(i).Name() == "extensionFields" {
+			if mv, ok := e.load(fsp).(MapV); ok && mv.M != nil && len(mv.M.Keys) > 0 {
+				dm, _ := e.load(fdp).(MapV)
+				if dm.M == nil {
+					e.nextObj++
+					dm = MapV{M: &MapObj{ID: e.nextObj, Epoch: e.epoch}}
+					e.store(fdp, dm)
+				}
+				for k := range mv.M.Keys {
+					e.mapSet(dm.M, mv.M.Keys[k], e.deepCopy(mv.M.Vals[k], map[*Obj]*Obj{}, map[*MapObj]*MapObj{}))
+				}
+			}
+			continue
+		}
+		if !strings.Contains(tag, "protobuf:") {
+			continue
+		}
+		sv := e.load(fsp)
+		switch x := sv.(type) {
+		case Ptr:
+			if x.Obj == nil {
+				continue
+			}
+			if x.NilCond != nil && e.decide(x.NilCond) {
+				continue
+			}
+			pt, _ := st.Field(i).Type().Underlying().(*types.Pointer)
+			if pt != nil {
+				if _, isMsg := pt.Elem().Underlying().(*types.Struct); isMsg && !isTimeType(pt.Elem()) {
+					dv, _ := e.load(fdp).(Ptr)
+					if dv.Obj != nil && dv.NilCond != nil {
+						if e.decide(dv.NilCond) {
+							dv = Ptr{}
+						} else {
+							dv.NilCond = nil
+						}
+					}
+					if dv.Obj != nil {
+						e.protoMerge(dv, Ptr{Obj: x.Obj, Path: x.Path}, pt.Elem(), depth+1)
+						continue
+					}
+				}
+			}
+			cp := e.deepCopy(Ptr{Obj: x.Obj, Path: x.Path}, map[*Obj]*Obj{}, map[*MapObj]*MapObj{})
+			e.store(fdp, cp)
+		case SliceV:
+			if x.Len == 0 {
+				continue
+			}
+			e.unsupported("proto.Merge of repeated or bytes fields")
+		default:
+			e.unsupported("proto.Merge of a proto3-style scalar field")
+		}
+	}
+}
+
+func init() {
+	stubs["google.golang.org/protobuf/proto.Merge"] = func(e *Exec, fr *Frame, fn *ssa.Function, a []Value) Value {
+		d, ok1 := a[0].(IfaceV)
+		s, ok2 := a[1].(IfaceV)
+		if !ok1 || !ok2 || d.T == nil || s.T == nil {
+			e.unsupported("proto.Merge of nil messages")
+		}
+		dp, _ := d.V.(Ptr)
+		sp, _ := s.V.(Ptr)
+		if dp.Obj == nil || sp.Obj == nil {
+			e.unsupported("proto.Merge of nil message pointers")
+		}
+		if sp.NilCond != nil || dp.NilCond != nil {
+			e.unsupported("proto.Merge of maybe-nil message pointers")
+		}
+		pt, ok := d.T.Underlying().(*types.Pointer)
+		if !ok || typeKey(d.T) != typeKey(s.T) {
+			e.unsupported("proto.Merge of different message types")
+		}
+		e.protoMerge(dp, sp, pt.Elem(), 0)
+		return nil
+	}
+}
